@@ -160,6 +160,7 @@ type cElem struct {
 	B      string `json:"b,omitempty"`
 	C      string `json:"c,omitempty"`
 	After  int    `json:"after"` // number of server groups already sent when this arrived
+	Items  int    `json:"items"` // number of server items already sent when the first byte of this element was noticed (PeekMs > 0: also noticed while the server is still talking)
 }
 
 type connScript struct {
@@ -171,6 +172,12 @@ type connScript struct {
 	// StallDropMs: while groups remain (each waits for the next client element): drop when the client stays silent this
 	// long, i.e. it is blocked reading (e.g. a stray stream header swallowed the rest of the input). 0: 20 s.
 	StallDropMs int `json:"stall_drop_ms,omitempty"`
+	// PeekMs > 0: the server is "patient": after reading a request and after each item of its answer (but the last)
+	// it looks for this long whether the client has already written something new, and notes how many items it had
+	// sent by then (cElem.Items of the next request). A client that sends a request before the answer that has to
+	// confirm the previous one is thereby caught: its Items is smaller than what it must have read. A slow client
+	// only makes Items larger, so the observation is one-sided and load cannot produce a false alarm.
+	PeekMs int `json:"peek_ms,omitempty"`
 }
 
 type connLog struct {
@@ -317,15 +324,72 @@ func (c sinkReader) Read(p []byte) (int, error) {
 	return n, err
 }
 
+// peekReader keeps every byte read from the connection, so that the server can ask whether the client has
+// written something the XML decoder has not consumed yet (and wait a little for it) without disturbing the decoder.
+type peekReader struct {
+	conn net.Conn
+	r    io.Reader
+	all  []byte
+	off  int
+}
+
+func (p *peekReader) Read(b []byte) (int, error) {
+	if p.off < len(p.all) {
+		n := copy(b, p.all[p.off:])
+		p.off += n
+		return n, nil
+	}
+	n, err := p.r.Read(b)
+	p.all = append(p.all, b[:n]...)
+	p.off += n
+	return n, err
+}
+
+func (p *peekReader) pending(decOff int64) bool {
+	if decOff < 0 || decOff > int64(len(p.all)) {
+		return false
+	}
+	for _, c := range p.all[decOff:] {
+		if c != ' ' && c != '\n' && c != '\r' && c != '\t' {
+			return true
+		}
+	}
+	return false
+}
+
+// peek: is there unconsumed client data now, or within d?
+func (p *peekReader) peek(d time.Duration, decOff int64) bool {
+	if p.pending(decOff) {
+		return true
+	}
+	p.conn.SetReadDeadline(time.Now().Add(d))
+	var tmp [4096]byte
+	n, _ := p.r.Read(tmp[:])
+	p.all = append(p.all, tmp[:n]...) // kept for the decoder: off is not advanced
+	return p.pending(decOff)
+}
+
 func (s *scriptedServer) serve(conn net.Conn, sc connScript, lg *connLog) {
 	defer conn.Close()
 	var cur net.Conn = conn
 	secure := false
-	dec := xml.NewDecoder(countingReader{conn, lg, &s.mu})
+	pr := &peekReader{conn: conn, r: countingReader{conn, lg, &s.mu}}
+	dec := xml.NewDecoder(pr)
 	sent := 0
+	items := 0
+	noticed := -1
+	peek := func() {
+		if sc.PeekMs > 0 && noticed < 0 && pr.peek(time.Duration(sc.PeekMs)*time.Millisecond, dec.InputOffset()) {
+			noticed = items
+		}
+	}
 	record := func(e cElem) {
 		e.Secure = secure
 		e.After = sent
+		e.Items = items
+		if noticed >= 0 {
+			e.Items = noticed
+		}
 		s.mu.Lock()
 		lg.Elems = append(lg.Elems, e)
 		s.mu.Unlock()
@@ -420,6 +484,8 @@ func (s *scriptedServer) serve(conn net.Conn, sc connScript, lg *connLog) {
 		if !reply {
 			continue
 		}
+		noticed = -1
+		peek() // has the client already written more, without waiting for the answer?
 		if sent >= len(sc.Groups) {
 			// a request the script has no answer for: the server drops the connection
 			end("script-exhausted")
@@ -430,7 +496,7 @@ func (s *scriptedServer) serve(conn net.Conn, sc connScript, lg *connLog) {
 		}
 		g := sc.Groups[sent]
 		sent++
-		for _, it := range g {
+		for gi, it := range g {
 			switch it.T {
 			case "eof":
 				end("server-dropped")
@@ -445,6 +511,10 @@ func (s *scriptedServer) serve(conn net.Conn, sc connScript, lg *connLog) {
 			if _, err := cur.Write([]byte(it.xml())); err != nil {
 				end("write-error")
 				return
+			}
+			items++
+			if it.T != "proceed" && gi+1 < len(g) {
+				peek()
 			}
 			if it.T == "proceed" {
 				cfg := serverTLSConfig(sc.Cert)
@@ -463,7 +533,8 @@ func (s *scriptedServer) serve(conn net.Conn, sc connScript, lg *connLog) {
 				s.mu.Unlock()
 				cur = tc
 				secure = true
-				dec = xml.NewDecoder(sinkReader{tc, &lg.SecureBy, &s.mu})
+				pr = &peekReader{conn: tc, r: sinkReader{tc, &lg.SecureBy, &s.mu}}
+				dec = xml.NewDecoder(pr)
 			}
 		}
 	}
